@@ -920,7 +920,8 @@ def rule_C3(prog):
             r.ob(False, "%s: no depth>=2 comparison nest recognised" % path)
             r.find(path, "nest-not-recognised", "%s is listed as super-linear but no comparison loop nest was recognised "
                    "(deadline parameter removed, or loop restructured beyond the rule)" % path,
-                   file=cands[0].file, line=cands[0].line)
+                   file=cands[0].file, line=cands[0].line,
+                   undecided=bool(prog.fn(cands[0].path) and cands[0].path in d.carriers))   # still a carrier: the loops changed shape
     return r
 
 
